@@ -126,9 +126,9 @@ func (e *Env) MakeHealthy() {
 				continue
 			}
 			gen, _ := o["metadata"].(map[string]any)["generation"]
-			want := map[string]any{"observedGeneration": gen, "conditions": []any{map[string]any{"type": "Ready", "status": "True", "reason": "Fine"}}}
-			if gen == nil {
-				delete(want, "observedGeneration")
+			want := map[string]any{"conditions": []any{map[string]any{"type": "Ready", "status": "True", "reason": "Fine"}}}
+			if og, ok := e.healthyOG(gen); ok {
+				want["observedGeneration"] = og
 			}
 			if vs.JSONEqual(o["status"], want) {
 				continue
